@@ -337,24 +337,35 @@ def invert (pivoting : Bool) (A : Mat (V K) n) : Option (Mat (V K) n) :=
 
 -- the configuration DUNE_FMatrix_WITH_CHECKING ----------------------------------------------------------------
 
-/-- `Simd::anyTrue(fvmeta::absreal(d) < FMatrixPrecision<>::absolute_limit())`: the test the checked configuration puts in
-    front of the closed forms; `chk = none`: the macro is not defined; `chk = some below` with `below x` the scalar test
-    `absreal(x) < absolute_limit()` (a `vector < scalar` comparison: lane-wise by `lane_op_compare`) -/
-def singularChecked (chk : Option (K → Bool)) (d : V K) : Bool :=
-  match chk with
-  | none => false
-  | some below => X.anyTrue (X.map below d)
+/-- a mask reduction of the abstraction layer, by kind (`anyTrue` / `allTrue` are what densematrix.hh uses of it; the other
+    two through the lane-wise `!`, as defaults.hh defines them) -/
+def reduceMask (k : RedKind) (m : V Bool) : Bool :=
+  match k with
+  | .anyTrue => X.anyTrue m
+  | .allTrue => X.allTrue m
+  | .anyFalse => X.anyTrue (X.map (!·) m)
+  | .allFalse => X.allTrue (X.map (!·) m)
+
+/-- `Simd::RED(fvmeta::absreal(d) CMP FMatrixPrecision<>::absolute_limit())`: the test the checked configuration puts in
+    front of the closed form for size `n`, *executed from the table the translator reads off densematrix.hh* (`tests`:
+    size ↦ reduction, comparison).  `chk = none`: the macro is not defined; `chk = some below` with `below c x` the scalar
+    test `absreal(x) c absolute_limit()` (a `vector CMP scalar` comparison: lane-wise by `lane_op_compare_mixed`) -/
+def singularChecked (tests : List (Nat × RedKind × CmpOpName)) (chk : Option (CmpOpName → K → Bool)) (n : Nat) (d : V K) : Bool :=
+  match chk, tests.lookup n with
+  | some below, some (k, c) => reduceMask X k (X.map (below c) d)
+  | _, _ => false
 
 /-- `DenseMatrix::solve` in either configuration: with `DUNE_FMatrix_WITH_CHECKING` the closed forms `n = 1, 2, 3` first test
-    `(*this)[0][0]`, `a00*a11 - a01*a10`, `determinant(doPivoting)` (in every case the value `determinant` returns) and
-    throw `FMatrixError` if *any* lane is below the limit; `n ≥ 4` is unchanged (`luDecomposition` throws early) -/
-def solveC (chk : Option (K → Bool)) (pivoting : Bool) (A : Mat (V K) n) (b : Vector (V K) n) : Option (Vector (V K) n) :=
-  if 1 ≤ n ∧ n ≤ 3 ∧ singularChecked X chk (determinant X R pivoting A) = true then none else solve X R pivoting A b
+    `(*this)[0][0]`, `a00*a11 - a01*a10`, `determinant(doPivoting)` (in every case the value `determinant` returns; the
+    translator insists on these expressions) and throw `FMatrixError`; `n ≥ 4` is unchanged (`luDecomposition` throws early) -/
+def solveC (chk : Option (CmpOpName → K → Bool)) (pivoting : Bool) (A : Mat (V K) n) (b : Vector (V K) n) :
+    Option (Vector (V K) n) :=
+  if singularChecked X chkSolve chk n (determinant X R pivoting A) = true then none else solve X R pivoting A b
 
 /-- `DenseMatrix::invert` in either configuration: the test exists for `n = 1, 2` only (the `n = 3` closed form and the LU
     path have none) -/
-def invertC (chk : Option (K → Bool)) (pivoting : Bool) (A : Mat (V K) n) : Option (Mat (V K) n) :=
-  if 1 ≤ n ∧ n ≤ 2 ∧ singularChecked X chk (determinant X R pivoting A) = true then none else invert X R pivoting A
+def invertC (chk : Option (CmpOpName → K → Bool)) (pivoting : Bool) (A : Mat (V K) n) : Option (Mat (V K) n) :=
+  if singularChecked X chkInvert chk n (determinant X R pivoting A) = true then none else invert X R pivoting A
 
 -- products and norms -----------------------------------------------------------------------------------
 
